@@ -307,7 +307,7 @@ def websocket_frames(fl: int, ah: int, upgraded: bool, n: int, t0: int, k0: int,
 
 def _refused(fl, kind, n, lim):
     """Bodies that must produce no message event at all."""
-    sut = mk(fl, async_handlers=False, max_http_buffer_size=lim)
+    sut = mk(fl, async_handlers=False, max_http_buffer_size=lim if kind == 2 else 1000000)
     try:
         sut.open('polling')
         sut.settle()
@@ -323,6 +323,9 @@ def _refused(fl, kind, n, lim):
             r = sut.post(sid, '4' + 'x' * (lim + n), declared_len=lim + 1 + n)
         elif kind == 3:     # unknown session
             r = sut.post(sid + 'x', '4a\x1e4b')
+        elif kind == 5:     # more packets than the limit, form-encoded (JSONP polling) body
+            import urllib.parse
+            r = sut.post(sid, 'd=' + urllib.parse.quote('\x1e'.join(['4m%d' % i for i in range(17 + n)])), extra='&j=0')
         else:               # closed session (CLOSE packet first, then a body naming it)
             sut.post(sid, '1')
             sut.settle()
@@ -344,7 +347,7 @@ def _refused(fl, kind, n, lim):
 @cond(quick=dict(timeout=120, parts=dict(FL=[0, 1])), thorough=dict(timeout=600, parts=dict(FL=[0, 1])))
 def refused_bodies(fl: int, kind: int, n: int, lim: int) -> str:
     """
-    pre: fl == P.FL and 0 <= kind <= 4 and 0 <= n <= 11 and 8 <= lim <= 12
+    pre: fl == P.FL and 0 <= kind <= 5 and 0 <= n <= 11 and 8 <= lim <= 12 and (kind == 2 or lim == 8)
     post: _ == ''
     """
     return verdict(_refused(fl, kind, n, lim))
